@@ -484,14 +484,14 @@ Proof. destruct s as [b|[|k r]]; try discriminate. reflexivity. Qed.
 Lemma forallb_true {A} (f : A -> bool) l : (forall x, f x = true) -> forallb f l = true.
 Proof. intros H. induction l as [|x r IH]; [reflexivity|]. cbn [forallb]. now rewrite H, IH. Qed.
 
-Lemma coll_schema_valid ds items k l :
-  jvalid false ds 0 (JS ([KwType [JArray]] ++ (if is_empty items then [] else [KwItems items])
+Lemma coll_schema_valid ds jf items k l :
+  jvalid false ds jf (JS ([KwType [JArray]] ++ (if is_empty items then [] else [KwItems items])
                          ++ match norm_kind k with KSet | KFrozenSet => [KwSetUnique] | _ => [] end)) (PList l)
-  = forallb (jvalid false ds 0 items) l.
+  = forallb (jvalid false ds jf items) l.
 Proof.
   destruct (is_empty items) eqn:E.
   - apply is_empty_eq in E. subst items.
-    rewrite (forallb_true (jvalid false ds 0 (JS []))) by (intros; apply jvalid_empty).
+    rewrite (forallb_true (jvalid false ds jf (JS []))) by (intros; apply jvalid_empty).
     destruct (norm_kind k); rewrite jvalid_JS; reflexivity.
   - destruct (norm_kind k); rewrite jvalid_JS; cbn [app nullable existsb orb andb forallb kw_valid flat_kw type_ok memt jtype_eqb prefix_len fold_left skipn];
       rewrite ?andb_true_r; reflexivity.
@@ -506,14 +506,14 @@ Lemma jvalid_type_fail ss ds fuel ts kws d :
   nullable (KwType ts :: kws) = false -> type_ok ts d = false -> jvalid ss ds fuel (JS (KwType ts :: kws)) d = false.
 Proof. intros Hn Ht. rewrite jvalid_JS, Hn. cbn [andb orb forallb kw_valid flat_kw]. now rewrite Ht. Qed.
 
-Lemma tuple_schema_valid ds (ss : list js) l :
-  jvalid false ds 0 (JS ([KwType [JArray]] ++ (match ss with [] => [] | _ => [KwPrefixItems ss] end)
+Lemma tuple_schema_valid ds jf (ss : list js) l :
+  jvalid false ds jf (JS ([KwType [JArray]] ++ (match ss with [] => [] | _ => [KwPrefixItems ss] end)
                          ++ [KwItems (JBoolS false); KwCon (KMinItems (List.length ss)); KwCon (KMaxItems (List.length ss))])) (PList l)
-  = Nat.eqb (List.length l) (List.length ss) && zip_valid (jvalid false ds 0) ss l.
+  = Nat.eqb (List.length l) (List.length ss) && zip_valid (jvalid false ds jf) ss l.
 Proof.
-  assert (Hfalse : forall l', forallb (jvalid false ds 0 (JBoolS false)) l' = match l' with [] => true | _ => false end).
+  assert (Hfalse : forall l', forallb (jvalid false ds jf (JBoolS false)) l' = match l' with [] => true | _ => false end).
   { intros l'. destruct l' as [|x r]; [reflexivity|]. cbn [forallb]. now rewrite jvalid_bool. }
-  assert (Hskip : forall n, forallb (jvalid false ds 0 (JBoolS false)) (skipn n l) && Nat.leb n (List.length l) && Nat.leb (List.length l) n
+  assert (Hskip : forall n, forallb (jvalid false ds jf (JBoolS false)) (skipn n l) && Nat.leb n (List.length l) && Nat.leb (List.length l) n
                             = Nat.eqb (List.length l) n).
   { intros n. rewrite Hfalse. destruct (Nat.eqb_spec (List.length l) n) as [E|E].
     - subst n. rewrite skipn_all, !Nat.leb_refl. reflexivity.
@@ -554,8 +554,8 @@ Proof.
   rewrite H by (left; reflexivity). rewrite IH; [reflexivity|]. intros y Hy. apply H. right. exact Hy.
 Qed.
 
-Lemma literal_schema_valid' ds vs d : in_domain d = true ->
-  jvalid false ds 0 (literal_schema vs) d = existsb (fun p => json_eq (prim_data p) d) vs.
+Lemma literal_schema_valid' ds jf vs d : in_domain d = true ->
+  jvalid false ds jf (literal_schema vs) d = existsb (fun p => json_eq (prim_data p) d) vs.
 Proof.
   intros Hd. rewrite <- (literal_schema_valid vs d Hd).
   unfold literal_schema. destruct vs as [|v [|v' r]]; rewrite !jvalid_JS; reflexivity.
@@ -569,10 +569,10 @@ Qed.
 
 Definition names_of (key : js) : list kw := match key with JS [KwType _] => [] | _ => [KwPropertyNames key] end.
 
-Lemma names_valid ds key kws kvs :
+Lemma names_valid ds jf key kws kvs :
   get_type key = Some [JString] ->
-  forallb (fun k => kw_valid false ds 0 kws k (PDict kvs)) (names_of key)
-  = forallb (fun kv => jvalid false ds 0 key (PStr (fst kv))) kvs.
+  forallb (fun k => kw_valid false ds jf kws k (PDict kvs)) (names_of key)
+  = forallb (fun kv => jvalid false ds jf key (PStr (fst kv))) kvs.
 Proof.
   intros Ht. unfold names_of.
   destruct key as [b|[|k0 [|k1 kr]]]; try destruct k0; try (cbn [forallb kw_valid]; now rewrite andb_true_r).
@@ -580,13 +580,13 @@ Proof.
   now rewrite jvalid_only_type.
 Qed.
 
-Lemma map_schema_valid ds key value kvs :
+Lemma map_schema_valid ds jf key value kvs :
   nn key -> get_type key = Some [JString] ->
-  jvalid false ds 0 (match get_pattern key with
+  jvalid false ds jf (match get_pattern key with
                      | Some p => JS ([KwType [JObject]; KwPatternProps [(p, value)]] ++ names_of key)
                      | None => JS ([KwType [JObject]] ++ (if is_empty value then [] else [KwAddProps value]) ++ names_of key)
                      end) (PDict kvs)
-  = forallb (fun kv => jvalid false ds 0 key (PStr (fst kv))) kvs && forallb (fun kv => jvalid false ds 0 value (snd kv)) kvs.
+  = forallb (fun kv => jvalid false ds jf key (PStr (fst kv))) kvs && forallb (fun kv => jvalid false ds jf value (snd kv)) kvs.
 Proof.
   intros Hnn Ht.
   assert (Hnames_null : nullable (names_of key) = false).
@@ -595,14 +595,14 @@ Proof.
   - rewrite jvalid_JS. unfold nullable in *. rewrite existsb_app, Hnames_null. cbn [existsb orb andb].
     rewrite forallb_app. cbn [forallb kw_valid flat_kw type_ok memt existsb jtype_eqb orb pats_valid]. rewrite !andb_true_r.
     rewrite names_valid by exact Ht. rewrite andb_comm. cbn [andb]. rewrite !forallb_and. apply forallb_in_ext. intros kv _.
-    destruct (jvalid false ds 0 key (PStr (fst kv))) eqn:Ek; [|reflexivity]. cbn [andb].
+    destruct (jvalid false ds jf key (PStr (fst kv))) eqn:Ek; [|reflexivity]. cbn [andb].
     assert (Hp : prefixb p (fst kv) = true).
-    { destruct key as [b|kws]; [destruct Hnn|]. apply (jvalid_in_con false ds 0 kws (KPattern p) (PStr (fst kv)) Hnn); [|exact Ek].
+    { destruct key as [b|kws]; [destruct Hnn|]. apply (jvalid_in_con false ds jf kws (KPattern p) (PStr (fst kv)) Hnn); [|exact Ek].
       now apply (get_pattern_in (JS kws)). }
     now rewrite Hp.
   - destruct (is_empty value) eqn:Ev.
     + apply is_empty_eq in Ev. subst value.
-      rewrite (forallb_true (fun kv => jvalid false ds 0 (JS []) (snd kv))) by (intros; apply jvalid_empty). rewrite andb_true_r.
+      rewrite (forallb_true (fun kv => jvalid false ds jf (JS []) (snd kv))) by (intros; apply jvalid_empty). rewrite andb_true_r.
       rewrite jvalid_JS. unfold nullable in *. cbn [app existsb orb]. rewrite Hnames_null. cbn [andb orb forallb kw_valid flat_kw type_ok memt existsb jtype_eqb].
       now apply names_valid.
     + rewrite jvalid_JS. unfold nullable in *. cbn [app existsb orb]. rewrite Hnames_null. cbn [andb orb forallb kw_valid flat_kw type_ok memt existsb jtype_eqb].
@@ -632,6 +632,7 @@ Section Main.
   Variable refs : string -> bool.
   Variable ds : defs.
   Hypothesis Henum : forall e, refs (ename_ e) = true -> def_lookup (ename_ e) ds = Some (literal_schema (get_enum u e)).
+  Variable jf : nat.      (* fuel of the validator: only followed by non-leaf references *)
   Notation sp := (spec u o).
   Notation B := (build u o refs).
 
@@ -667,7 +668,7 @@ Section Main.
 
   Theorem frag_agree fuel bf : forall t ign d,
     obj_free t = true -> wf_con t = true -> con_mergeable bf ign t = true -> keys_ok u t = true -> in_domain d = true ->
-    jvalid false ds 0 (B bf ign t) d = accepts (sp fuel None t d).
+    jvalid false ds jf (B bf ign t) d = accepts (sp fuel None t d).
   Proof.
     induction t using ty_ind'; intros ign d Hf Hw Hm Hk Hd.
     - (* None *) assert (E : B bf ign TNone = JS [KwType [JNull]]) by (destruct bf; reflexivity).
@@ -691,7 +692,7 @@ Section Main.
         try (apply jvalid_type_fail; [apply nullable_coll | reflexivity]).
       + apply jvalid_type_fail; [apply nullable_coll | destruct f; reflexivity].
       + rewrite coll_schema_valid.
-        assert (Hl : forall x, In x l -> jvalid false ds 0 (B bf false t) x = accepts (sp fuel None t x)).
+        assert (Hl : forall x, In x l -> jvalid false ds jf (B bf false t) x = accepts (sp fuel None t x)).
         { intros x Hx. apply IHt; auto. cbn [in_domain] in Hd. rewrite forallb_forall in Hd. auto. }
         rewrite (forallb_in_ext _ _ _ Hl).
         assert (Hnf : forall x, In x l -> sp fuel None t x <> SFuel) by (intros; now apply obj_free_no_fuel).
@@ -704,7 +705,7 @@ Section Main.
       + apply jvalid_type_fail; [apply nullable_tuple | destruct f; reflexivity].
       + rewrite tuple_schema_valid, map_length.
         destruct (Nat.eqb (List.length l) (List.length ts)) eqn:El; cbn [negb andb]; [|reflexivity].
-        rewrite (zip_agree (jvalid false ds 0) (B bf false) (sp fuel None) ts l).
+        rewrite (zip_agree (jvalid false ds jf) (B bf false) (sp fuel None) ts l).
         * destruct (all_ok (zip_spec (sp fuel None) ts l)) as [[vs|]|]; reflexivity.
         * intros t Ht x Hx. rewrite Forall_forall in H. apply H; auto.
           -- rewrite forallb_forall in Hf. auto.
@@ -726,9 +727,9 @@ Section Main.
       1-6,8: (pose proof (nullable_map_schema key value) as Hnull;
               destruct (get_pattern key); cbn [kws_of] in Hnull; (apply jvalid_type_fail; [exact Hnull | try destruct f; reflexivity])).
       rewrite map_schema_valid by assumption.
-      assert (HK : forall kv, In kv kvs -> jvalid false ds 0 key (PStr (fst kv)) = accepts (sp fuel None t1 (PStr (fst kv)))).
+      assert (HK : forall kv, In kv kvs -> jvalid false ds jf key (PStr (fst kv)) = accepts (sp fuel None t1 (PStr (fst kv)))).
       { intros kv _. apply IHt1; auto. now apply key_keys_ok. }
-      assert (HV : forall kv, In kv kvs -> jvalid false ds 0 value (snd kv) = accepts (sp fuel None t2 (snd kv))).
+      assert (HV : forall kv, In kv kvs -> jvalid false ds jf value (snd kv) = accepts (sp fuel None t2 (snd kv))).
       { intros kv Hkv. apply IHt2; auto. eapply in_domain_dict; eassumption. }
       rewrite (forallb_in_ext _ _ _ HK), (forallb_in_ext _ _ _ HV).
       assert (N1 : forall kv, In kv kvs -> sp fuel None t1 (PStr (fst kv)) <> SFuel) by (intros; now apply obj_free_no_fuel).
@@ -743,14 +744,14 @@ Section Main.
       destruct (prim_of d); [destruct (existsb _ vs)|]; reflexivity.
     - (* enum *)
       rewrite build_TEnum, spec_TEnum.
-      assert (G : jvalid false ds 0 (literal_schema (get_enum u e)) d
+      assert (G : jvalid false ds jf (literal_schema (get_enum u e)) d
                   = accepts match prim_of d with Some p => if existsb (prim_eqb p) (get_enum u e) then SOk (VEnum e p) else SRej | None => SRej end).
       { rewrite literal_schema_valid' by exact Hd. rewrite literal_agree by exact Hd.
         destruct (prim_of d); [destruct (existsb _ _)|]; reflexivity. }
       destruct (refs (ename_ e) && negb ign)%bool eqn:Er; [|exact G].
       apply andb_true_iff in Er. destruct Er as [Er _].
       rewrite jvalid_JS. cbn [nullable existsb orb andb forallb kw_valid]. rewrite (Henum e Er), andb_true_r.
-      rewrite (leaf_valid_literal false ds 0). exact G.
+      rewrite (leaf_valid_literal false ds jf). exact G.
     - (* Annotated *)
       cbn [obj_free wf_con con_mergeable keys_ok] in *.
       apply andb_true_iff in Hw. destruct Hw as [Hw Hww]. apply andb_true_iff in Hw. destruct Hw as [Hpl Hcs].
